@@ -16,6 +16,8 @@ NA = {
  "C17": "rune helpers are pure functions of (string, ints) (DESIGN.md section 8).",
 }
 
+COMPANION = "; plus a companion worker under the Go race detector (Engine-A scheduler, threads with instances of their own, first-use runs in fresh processes) for package-level state"
+
 ENG = {
  "A": "deterministic atomic-step scheduler over the real code under the Go race detector",
  "B": "testing/synctest bubble with rewriter-inserted yields, seeded schedule",
@@ -24,11 +26,11 @@ ENG = {
 
 CHECKS = {
  "C01": dict(engine="A", level="exploration", ref="DESIGN.md 4, 7 (C01)",
-   tech="deterministic simulation: seeded interleaving of atomic steps of the real SyncRing + stalls/freeze faults + simulated clock; oracle = porcupine linearizability vs bounded FIFO, conservation, progress, Go race detector",
+   tech="deterministic simulation: seeded interleaving of atomic steps of the real SyncRing (uniform, sticky, PCT and lockstep policies) + stalls/freeze faults + simulated clock with jumps; oracle = porcupine linearizability vs bounded FIFO, conservation, progress, Go race detector",
    text="Seeded search over interleavings of every atomic step of the real ringz/sync.go with stall and freeze faults and a simulated clock; each run is checked for conservation, linearizability against a bounded FIFO (porcupine), legitimacy of failures, progress, Len range and data races. Evidence over the seeds explored, not a proof.",
    note="Trusted: the Go race detector and memory model (SC for race-free programs), porcupine, the shim packages performing the real atomic after each scheduling point, the rewriter (import redirection only)."),
  "C11": dict(engine="A", level="exploration", ref="DESIGN.md 4, 7 (C11)",
-   tech="deterministic simulation: seeded interleaving of atomic steps of the real SyncList + stall/freeze-and-probe faults; oracle = porcupine linearizability vs unbounded FIFO, counter probes, bounded liveness, Go race detector",
+   tech="deterministic simulation: seeded interleaving of atomic steps of the real SyncList (uniform, sticky, PCT and lockstep policies) + stall/freeze-and-probe faults + simulated clock; oracle = porcupine linearizability vs unbounded FIFO, counter probes, bounded liveness, Go race detector",
    text="Seeded search over interleavings of every atomic step of the real listz/sync_list.go with stall and freeze-and-probe faults; each run is checked for conservation, FIFO linearizability (porcupine), Len >= 0, Len >= poppable under freeze, exact Len when quiescent, pusher liveness under a fair scheduler and data races. Evidence over the seeds explored, not a proof.",
    note="Trusted: the Go race detector and memory model, porcupine, the shims, the rewriter (import redirection and timer-receive rewrite only)."),
  "C12": dict(engine="A", level="exploration", ref="DESIGN.md 4, 7 (C12)",
@@ -37,7 +39,7 @@ CHECKS = {
    note="Trusted: the Go race detector and memory model, porcupine, the lock model in ssync (admission only; the real RWMutex is taken), the map-range rewrite (an order the language permits)."),
  "C02": dict(engine="C", level="exploration", ref="DESIGN.md 6, 7 (C02)",
    tech="deterministic simulation: sequential run with the list's private PRNG and the clock that seeds it owned by the simulator (tower heights become a seeded, adversarially distributed input); oracle = sorted-map reference model stepped op by op with full cross-check",
-   text="Seeded operation histories over both list flavours, 7 key types/comparators and three start states (New, Init, zero value) with every tower height drawn from the run seed under production and adversarial distributions; every return value and, after each mutation, every enumeration is compared with a sorted-map model. Evidence over the seeds explored, not a proof.",
+   text="Seeded operation histories over both list flavours, 11 key kinds (ordered and comparator flavours: int, string, uint16, float, byte-range strings, pairs, length-lexicographic strings, extreme-valued and dereferencing comparators over pointer keys) and three start states (New, Init, zero value) with every tower height drawn from the run seed under production and adversarial distributions; every return value and, after each mutation, every enumeration is compared with a sorted-map model. Evidence over the seeds explored, not a proof.",
    note="Trusted: the reference model (Go map + sort), the import redirection of math/rand and time in listz, math/rand.Rand arithmetic."),
  "C03": dict(engine="C", level="exploration", ref="DESIGN.md 6, 7 (C03)",
    tech="deterministic simulation: sequential run with the PRNG/clock of the embedded bucket skip list owned by the simulator; oracle = map[uint32] + sorted slice reference model, all three enumerations compared in full",
@@ -49,7 +51,7 @@ CHECKS = {
    note="Trusted: Go's crypto/md5, crypto/aes, crypto/cipher as the reference for openssl enc -aes-256-cbc -md md5; the io.Reader/io.Writer contract as written in package io."),
  "C18": dict(engine="C", level="exploration", ref="DESIGN.md 6, 7 (C18)",
    tech="deterministic simulation of Go's randomised map iteration order (seeded permutation of every map range in algz) over generated inputs; oracle = brute force over all subsets / vertex sets",
-   text="The weakest claim: the only nondeterminism in algz is map iteration order, which the simulator owns (it changes which overshoot totals FindDpSolvers keeps); inputs are generated and compared with exhaustive enumeration of all 2^n selections (n <= 12) and all vertex subsets (<= 9 vertices). Evidence over the seeds explored.",
+   text="The weakest claim: the only nondeterminism in algz is map iteration order, which the simulator owns (it changes which overshoot totals FindDpSolvers keeps); inputs are generated and compared with exhaustive enumeration of all 2^n selections (n <= 17) and all vertex subsets (<= 13 vertices), and with answers known by construction for bigger inputs (disjoint copies, structured graphs of hundreds of vertices, scaled units). Evidence over the seeds explored.",
    note="Trusted: the brute-force oracles; the map-range rewrite (an order the language permits)."),
  "C19": dict(engine="B", level="exploration", ref="DESIGN.md 5, 7 (C19)",
    tech="deterministic simulation: testing/synctest bubble with a yield inserted before every statement of goz.go, one seeded choice per step of which goroutine proceeds, fake clock; faults = task panics, stalled tasks; invariants checked at every quiescent point plus bounded liveness",
@@ -80,7 +82,7 @@ def main():
             engine=c["engine"],
             level_claimed=dict(category=c["level"], text=c["text"], design_ref=c["ref"]),
             level_note=c["note"],
-            technique=c["tech"],
+            technique=c["tech"] + (COMPANION if c["engine"] == "C" else ""),
         ))
     claimed = {c["property_id"] for c in checks}
     for pid in sorted(CHECKS):
